@@ -4,6 +4,8 @@ EXTENDS Shorten, Json
 V12 == {1, 2}
 TinyVals == {-3, 2}
 TinyCmds == {0, 1, 2, 3, 5, 6, 8}
+\* two channels with a shift that changes between the channel blocks of one frame
+Tiny2Cmds == {0, 1, 6, 8}
 LpcVals == {-2, 3}
 LpcCoefs == {-8, 20}
 LpcCmds == {7, 1}
